@@ -1043,6 +1043,18 @@ impl<'a> Checker<'a>
                     }
                 }
                 if d.is_none() { if let Some(pi) = self.find_polled(inst, &s) { d = Some(self.take_polled(pi, inst)); } }
+                if d.is_none()
+                {
+                    // a delivery for another registration of the same function served by this instance's system?
+                    if let Some(l) = list.as_deref()
+                    {
+                        if let Some(other) = l.iter().find(|x| x.target != inst && self.expected_sample(&x.cause) == s && self.insts[x.target as usize].real.map(|r| r == e).unwrap_or(true) && self.prog.insts[x.target as usize].origin == self.prog.insts[inst as usize].origin)
+                        {
+                            let o = other.target;
+                            fail!(self, "C13", "registration-shares-system", &["C01"], "the reaction for instance {o} was run by the system of instance {inst}: two registrations of the same function share one system state");
+                        }
+                    }
+                }
                 let Some(d) = d else
                 {
                     // same instance expected, different data: the run happened but saw the wrong event data
@@ -1826,6 +1838,14 @@ impl<'a> Checker<'a>
                     }
                 }
                 Origin::EntityWorld(_) => { self.insts[i].created = true; self.insts[i].alive = true; }
+                Origin::App =>
+                {
+                    self.insts[i].created = true;
+                    self.insts[i].alive = true;
+                    let trigs = prog0.app_reactors.iter().find(|(x, _)| *x as usize == i).map(|(_, t)| t.clone()).unwrap_or_default();
+                    let t: Vec<MTrig> = trigs.iter().take(crate::harness::MAX_BUNDLE).map(|t| self.resolve(t)).collect();
+                    self.register(i as Inst, Mode::Persistent, &t);
+                }
                 _ => {}
             }
         }
@@ -1949,8 +1969,8 @@ impl<'a> Checker<'a>
         }
         if post.res != self.res { fail!(self, "C14", "resource-value", &[], "resources {:?}, expected {:?} (step {step})", post.res, self.res); }
         // conservation
-        let unknown_alive = self.insts.iter().filter(|t| t.created && !t.known && t.alive && !t.doomed && !t.limbo && !matches!(t.origin, Origin::World(_) | Origin::EntityWorld(_))).count() as i64;
-        let unknown_maybe = self.insts.iter().filter(|t| t.created && !t.known && t.alive && (t.doomed || t.limbo) && !matches!(t.origin, Origin::World(_) | Origin::EntityWorld(_))).count() as i64;
+        let unknown_alive = self.insts.iter().filter(|t| t.created && !t.known && t.alive && !t.doomed && !t.limbo && !matches!(t.origin, Origin::World(_) | Origin::EntityWorld(_) | Origin::App)).count() as i64;
+        let unknown_maybe = self.insts.iter().filter(|t| t.created && !t.known && t.alive && (t.doomed || t.limbo) && !matches!(t.origin, Origin::World(_) | Origin::EntityWorld(_) | Origin::App)).count() as i64;
         let lo = unknown_alive + self.sys.extra_entities_lo();
         let hi = unknown_alive + unknown_maybe + self.sys.extra_entities_hi();
         if post.excess_entities > hi
